@@ -13,7 +13,7 @@ CLAIMED = {
         text="Seeded exploration of API histories (all ten entry points, re-entrant callbacks that start requests or cancel, top-level cancel, destroy) against virtual servers (answers, error rcodes, truncation, silence, garbage, resets), packet loss/dup/reorder/delay and per-call socket faults. A per-request ledger decides exactly-once, cancel completeness and no-callback-after-destroy at every step; ASan/UBSan and c-ares' own assertions run in the same executions.",
         ref="5 C01", tech=TECH + "request-ledger oracle + ASan/UBSan over each simulated history", note=NOTE_COMMON),
     'C03': dict(
-        text="Scoped to the write-parse round trips that happen inside the simulated pipeline: every UDP datagram / TCP frame the library hands to a socket (at whatever offset of the connection's output buffer the transport schedule leaves it) is decoded by an independent codec and compared field by field with the request made, including multi-record requests built with the public setters (shared suffixes, escaped names, > 16 KiB); every answer delivered through record or legacy-buffer callbacks is compared with what the virtual server sent.",
+        text="Scoped to the write-parse round trips that happen inside the simulated pipeline: every UDP datagram / TCP frame the library hands to a socket (at whatever offset of the connection's output buffer the transport schedule leaves it) is decoded by an independent codec and compared field by field with the request made, including multi-record requests built with the public setters (shared suffixes, escaped names, > 16 KiB), under TCP would-block / partial writes and UDP would-block (a datagram stays queued and others queue behind it); a frame must be exactly one message (no bytes after its end); every answer delivered through record or legacy-buffer callbacks is compared with what the virtual server sent.",
         ref="5 C03", tech=TECH + "reference-decoder oracle at the virtual server and at the callbacks", note=NOTE_COMMON + " The free-standing 'any record round-trips through ares_dns_write/ares_dns_parse' clause is a pure function of the record and is only reached as far as simulated requests/answers travel through it."),
     'C05': dict(
         text="Genuine traffic plus an off-path adversary injecting datagrams that differ from the would-be-valid reply in exactly one respect (id, socket, source address, name, type, class, question count, letter case, cookie) at seeded instants of a query's life. Every delivered datum (including later cache hits) carries a unique marker naming its packet; a marker from a packet that was unacceptable at the instant the library read it is a violation, as is a server-success report in a call that only read unacceptable packets.",
@@ -28,16 +28,16 @@ CLAIMED = {
         text="Seeded request/response/time-advance/reconfigure sequences over a small name set. A request completed without any transmission is a cache hit; its markers identify the cached response, and a reference model (key, rcode/TC filter, whole-second freshness against min(max_ttl, own TTLs or SOA minimum), flush on membership change/reinit) decides whether the hit was allowed and which TTLs it may show through record, legacy and addrinfo APIs.",
         ref="5 C08", tech=TECH + "reference cache model over recorded history, virtual clock stepping across expiry seconds", note=NOTE_COMMON + " A pure reorder of the server list is treated as ambiguous (not required to flush)."),
     'C09': dict(
-        text="Per-attempt server behaviour (answer, silence, SERVFAIL/NOTIMP/REFUSED, FORMERR with/without OPT, reset) is a keyed hash of (seed, server, question, attempt), with outages, recoveries and server-list edits as generated steps. A reference failover model is driven by the public server-state callback stream and the list-edit history; every first transmission of a query must go to a server the model allows (lowest failure count, list order as tie-break, or a due probe of a failed server under the configured retry chance/delay; rotate cycles), every resend after a failure must move on while another server is available, and a response that is not one of the defined failures must reset the server's count.",
+        text="Per-attempt server behaviour (answer, silence, SERVFAIL/NOTIMP/REFUSED, FORMERR with/without OPT, reset) is a keyed hash of (seed, server, question, attempt), with outages, recoveries and server-list edits as generated steps. A reference failover model is driven by the public server-state callback stream, the list-edit history and, independently of the library's own reports, by hard receive errors the virtual kernel returned on a server's socket (they count against that server from that instant); every first transmission of a query must go to a server the model allows (lowest failure count, list order as tie-break, or a due probe of a failed server under the configured retry chance/delay; rotate cycles), every resend after a failure must move on while another server is available, and a response that is not one of the defined failures must reset the server's count.",
         ref="5 C09", tech=TECH + "reference failover model over the recorded transmission and server-state history", note=NOTE_COMMON + " Failure counts are observed only through ares_set_server_state_callback and the wire; TCP transmissions are not judged."),
     'C11': dict(
         text="2..4 caller threads with seeded programs (all ten request entry points, re-entrant callbacks, ares_cancel, server-list edits, ares_reinit, sortlist/local setters, ares_queue_wait_empty with and without timeout, ares_queue_active_queries, ares_timeout, ares_dup, ares_save_options, ares_get_servers_csv, rewritten system files and injected inotify events) run against the live event thread (epoll/poll/select) and its reload thread. Every thread is a real pthread; a seeded baton scheduler (continue-with-preemption-probability, PCT-style priorities, or uniform) releases exactly one at a time at every mutex, condition, create/join, wait-call and pipe/socket operation; blocking and timeouts are virtual. The same schedules run twice: under ThreadSanitizer (c-ares instrumented, scheduler hand-off invisible to it, so it sees exactly the happens-before relation c-ares' own locks create) and under ASan/UBSan. Verdict: no race report with a c-ares frame; no quiescence with a thread waiting for a mutex (deadlock) or with an incomplete request / a waiter on an empty queue (lost wake-up); every library-created thread joined by ares_destroy; per-request ledger (exactly one callback, none after destroy) and completion within the retry budget; a successful queue wait needs an instant inside the call at which no request was outstanding.",
         ref="5 C11", tech=TECH + "real threads under a seeded baton scheduler with ThreadSanitizer on the deterministic interleaving + deadlock/lost-wake-up detection by quiescence", note=NOTE_COMMON + " Only c-ares is TSan-instrumented; accesses inside libc interceptors and operator new/delete events of the (uninstrumented, serialised) harness are ignored, which also ignores memcpy/memset ranges issued by c-ares itself."),
     'C12': dict(
-        text="Generated resolv.conf-style configuration (search lists up to the limit, ndots 0..15, duplicate and root domains, ARES_FLAG_NOSEARCH/NOALIASES, HOSTALIASES in a virtual file) and names with 0..n dots, trailing dots and lengths up to the 255-octet limit; per-candidate zone outcomes (NXDOMAIN, NODATA, SERVFAIL, timeout, answer) are a keyed hash. A reference walk produces the allowed candidate sequences (set-valued where the statement is silent); the sequence of distinct question names seen at the virtual servers and the final status/answer provenance must be one of them.",
+        text="Generated resolv.conf-style configuration (search lists up to the limit, ndots 0..15, duplicate and root domains, ARES_FLAG_NOSEARCH/NOALIASES, HOSTALIASES in a virtual file) and names with 0..n dots, trailing dots and lengths up to the 255-octet limit; per-candidate zone outcomes (NXDOMAIN, NODATA, SERVFAIL, timeout, answer) are a keyed hash; in a third of the runs the virtual resolv.conf is rewritten and reloaded (ares_reinit) between searches, and each search is judged against the settings in force when it was submitted (option > environment > file). A reference walk produces the allowed candidate sequences (set-valued where the statement is silent); the sequence of distinct question names seen at the virtual servers and the final status/answer provenance must be one of them.",
         ref="5 C12", tech=TECH + "reference search walk compared with the question sequence recorded at the virtual network", note=NOTE_COMMON),
     'C13': dict(
-        text="ares_getaddrinfo/ares_gethostbyname under AF_INET/AF_INET6/AF_UNSPEC with per-family outcomes (answer, CNAME chains, NODATA, NXDOMAIN, SERVFAIL, silence, truncation), hosts-file entries in a virtual file, lookups order 'bf'/'fb', and loss/duplication/reordering between the A and AAAA sub-queries. Every address carries a marker naming the packet or hosts line it came from; the delivered multiset of addresses, their families, TTL bounds, the canonical name/alias chain and the status must equal what the reference combination of the two sub-answers allows.",
+        text="ares_getaddrinfo/ares_gethostbyname under AF_INET/AF_INET6/AF_UNSPEC with per-family outcomes (answer, CNAME chains, NODATA, NXDOMAIN, SERVFAIL, silence, truncation), hosts-file entries in a virtual file, lookups order 'bf'/'fb', and loss/duplication/reordering between the A and AAAA sub-queries. Every address carries a marker naming the packet or hosts line it came from; the delivered multiset of addresses, their families, TTL bounds, the canonical name/alias chain and the status must equal what the reference combination of the two sub-answers allows; a lookup that fails although an answer carrying addresses of a requested family was accepted for one of its candidates has dropped that answer (per-question permanent SERVFAIL/REFUSED per family, single-label and multi-label names).",
         ref="5 C13", tech=TECH + "address-multiset oracle against a reference combination of per-family sub-answers", note=NOTE_COMMON + " An IPv4 literal looked up with AF_INET6 is not judged (legacy behaviour outside the statement)."),
     'C14': dict(
         text="Fault enumeration over a seeded family of short scenarios (channel init with options and virtual system files; every request kind driven to completion against a healthy virtual network, UDP and TCP-upgraded; cache hits; search lists; hosts-file lookups; server-list edits, reinit, cancel, dup, save-options; destroy). Each scenario is executed once failure-free to count its N allocator calls, then once per n in 1..N with exactly the n-th allocation returning NULL (quick tier: at most 500 evenly spread n per scenario). Verdict per execution: no sanitizer report; allocator ledger empty and no foreign free after ares_destroy + ares_library_cleanup; every accepted request got exactly one callback; a request that still reports success has the same answer shape as in the failure-free execution; and after the failure a fresh query on the same channel against the healthy network completes. A second part repeats the enumeration with the library's event thread (Mode B: event thread on epoll/poll/select plus 1..2 caller threads under the baton scheduler, one process per failing index), where allocations made by the library's own threads are failed too and a hang of ares_destroy, a busy loop or a deaf event thread count as violations.",
@@ -49,7 +49,7 @@ CLAIMED = {
         text="Virtual servers implement RFC 7873 server behaviour in ten modes (no cookie support, echo, strict BADCOOKIE, rotating secrets, regression to no-cookie and back, malformed lengths, wrong client cookie echoes). A per-(channel, server) reference model of the client state machine is fed every transmission and every reply the library read: client cookie stable while source address and server are unchanged and regenerated when they change, server cookie echoed exactly as last validly learned, replies with a missing/mismatched client cookie dropped once support was seen, at most the allowed consecutive BADCOOKIE resends before TCP, and fall back to cookie-less operation within the regression period on a virtual clock.",
         ref="5 C17", tech=TECH + "RFC 7873 reference state machine over recorded transmissions/reads under a virtual clock", note=NOTE_COMMON),
     'C10': dict(
-        text="The virtual socket layer never reuses descriptor numbers and logs every call: any call or close on a closed/never-opened descriptor, a leaked or doubly closed socket, a UDP socket over its per-socket query limit, a socket-state notification outside the descriptor's lifetime, a missing/duplicate final (0,0), an open socket the application was not told to watch (read; write while a connect or partial write is pending), and any disagreement between ares_fds/ares_getsock and the open set is a violation, under per-call socket faults, TFO, failing socket callbacks, cancels and reconfiguration.",
+        text="The virtual socket layer never reuses descriptor numbers and logs every call: any call or close on a closed/never-opened descriptor, a leaked or doubly closed socket, a UDP socket over its per-socket query limit, a socket-state notification outside the descriptor's lifetime, a missing/duplicate final (0,0), an open socket the application was not told to watch (read; write while a connect or partial write is pending), and any disagreement between ares_fds/ares_getsock and the open set (ares_getsock is given arrays of 1..47 entries, with more than 16 sockets open in a share of runs; nothing beyond what its 16-socket bitmask can describe may be written) is a violation, under per-call socket faults, TFO, failing socket callbacks, cancels and reconfiguration.",
         ref="5 C10", tech=TECH + "call-protocol automaton over the virtual kernel's call log and callback streams", note=NOTE_COMMON),
     'C20': dict(
         text="Differential: each seeded plan (batches of queued queries, answers up to several KiB, TC upgrades) runs twice, once over whole-message always-writable transport and once with generated inbound chunking (down to 1 byte), partial writes, EAGAIN windows and zero-length datagrams; per-request outcomes and the set of questions reaching the servers must agree, every frame at the server must decode. A valgrind-memcheck part runs the same profile on an uninstrumented build to catch uninitialised reads on these paths.",
